@@ -75,16 +75,16 @@ def _p(pid, rules, technique, explanation, not_decided, level_text, trusted=None
 
 _p('C02', ['R1', 'R36', 'R49', 'R28', 'R29', 'R5', 'R12'], 'abstract interpretation of two parallel lists; must-pass-through / at-most-once path checks on CFGs',
    'TODO', 'TODO', 'TODO')
-_p('C03', ['R4', 'R50', 'R51', 'R12', 'R28', 'R29', 'R64'], 'interprocedural structural type inference + truthiness-context lint', 'TODO', 'TODO', 'TODO')
+_p('C03', ['R4', 'R50', 'R51', 'R12', 'R28', 'R29', 'R64', 'R67'], 'interprocedural structural type inference + truthiness-context lint', 'TODO', 'TODO', 'TODO')
 _p('C04', ['R5', 'R1b', 'R8h', 'R11', 'R49', 'R51', 'R58', 'R29'], 'call-graph reachability + class-override scan; typed lookup lint; regex alphabets', 'TODO', 'TODO', 'TODO')
 _p('C05', ['R26', 'R27', 'R47', 'R23model', 'R14', 'R50'], 'symbolic list-shape evaluation; class-hierarchy check; typestate over sort/top', 'TODO', 'TODO', 'TODO')
 _p('C07', ['R19', 'R9', 'R16', 'R43', 'R18', 'R35', 'R10', 'R6', 'R23lex'], 'typestate dataflow on CFGs; call-result-use lint; provenance', 'TODO', 'TODO', 'TODO')
 _p('C09', ['R6', 'R37', 'R12', 'R45'], 'splitter table + regex language equivalence', 'TODO', 'TODO', 'TODO')
 _p('C10', ['R11', 'R30', 'R31', 'R52'], 'typed lookup lint; loop-shape path checks; may-analysis of freshness', 'TODO', 'TODO', 'TODO')
 _p('C11', ['R31', 'R3', 'R38', 'R33', 'R36', 'R44', 'R62', 'R63'], 'may-analysis of freshness; constructor-argument lint; control-dependence facts', 'TODO', 'TODO', 'TODO')
-_p('C12', ['R2', 'R3', 'R31', 'R14', 'R53', 'R24', 'R33', 'R63', 'R65'], 'typed partial-map access lint with dominating guards', 'TODO', 'TODO', 'TODO')
+_p('C12', ['R2', 'R3', 'R31', 'R14', 'R53', 'R24', 'R33', 'R63', 'R65', 'R66'], 'typed partial-map access lint with dominating guards', 'TODO', 'TODO', 'TODO')
 _p('C13', ['R29', 'R28', 'R23model', 'R24m', 'R30', 'R48'], 'propositional equivalence of sibling predicates; ordering on CFG paths', 'TODO', 'TODO', 'TODO')
-_p('C14', ['R2', 'R1', 'R36', 'R44', 'R61'], 'partial-map lint; path checks on the context stack simulation', 'TODO', 'TODO', 'TODO')
+_p('C14', ['R2', 'R1', 'R36', 'R44', 'R61', 'R66'], 'partial-map lint; path checks on the context stack simulation', 'TODO', 'TODO', 'TODO')
 _p('C15', ['R21', 'R22', 'R23top', 'R39', 'R14', 'R54', 'R55', 'R57'], 'predicate extraction + truth table; guard-before-store may-analysis', 'TODO', 'TODO', 'TODO')
 _p('C16', ['R40', 'R28', 'R29', 'R7'], 'loop-carried status accumulation dataflow; must-pass-through', 'TODO', 'TODO', 'TODO')
 _p('C17', ['R14', 'R13', 'R15', 'R60', 'R61'], 'set-iteration classification on inferred types; comparison lint', 'TODO', 'TODO', 'TODO')
